@@ -66,7 +66,7 @@ def sweep(ck, L, fname, exp, Zs, macs, st, two_args=True, skip=()):
                          dict(call='%s(%d,%d)' % (fname, ZZ[k], MM[k]) if two_args else '%s(%d)' % (fname, ZZ[k]), config=L.config))
         # the library as the project's own build makes it (meson), inside a host program whose own globals carry the names of the library's
         # internal tables and helpers (build.hostile_host): the tables the calls read are the library's own, so the bits are the same
-        for pb in build.PROJECT_BUILDS:       # default options / release without assertions / plain char unsigned (execlib.PB_WHAT)
+        for pb in build.EXEC_BUILDS:       # default options / release without assertions / plain char unsigned (execlib.PB_WHAT)
             try:
                 L4 = execlib.Lib(L.config, pb, env={'LD_PRELOAD': build.hostile_host(L.config)['so']})
                 r4 = L4.call(fname, ZZ, MM) if two_args else L4.call(fname, ZZ)
